@@ -159,7 +159,7 @@ REQUIRED = [
     ("cap leaves wf room", ["CAP <= each(enumerate(I[:-1]))", "CAP is not False", "M[idx + 1] == 'wf'"], "interface cap leaving a wire-fencing ensemble no room"),
     ("engine defined", ["each(unique_engines) not in config"], "undefined engine"),
     ("lambda_-1 < lambda_0", ["LMO >= I[0]", "LMO is not False"], "lambda_minus_one not below the first interface"),
-    ("quantis excludes lambda_-1", ["truthy(Q)", "truthy(LMO)"], "quantis together with lambda_minus_one"),
+    ("quantis excludes lambda_-1", ["truthy(Q)", "LMO is not False"], "quantis together with lambda_minus_one"),
 ]
 
 
@@ -369,6 +369,7 @@ VARIANTS = [
     B("c18-cap-truthiness", SETUP, "    if intf_cap is not False and intf_cap > intf[-1]:", "    if intf_cap and intf_cap > intf[-1]:", "R-18.1", control=True, why="pre-fix F18.2"),
     B("c18-cap-wf-room-dropped", SETUP, '            if sh_moves[idx + 1] == "wf" and intf_cap <= intf_i:', '            if sh_moves[idx + 1] == "wf" and intf_cap <= intf[0]:', "R-18.1", why="pre-fix F18.1 (clause not relating the cap to each wf interface)"),
     B("c18-cap-wf-room-strict", SETUP, '            if sh_moves[idx + 1] == "wf" and intf_cap <= intf_i:', '            if sh_moves[idx + 1] == "wf" and intf_cap < intf_i:', "R-18.1"),
+    B("c18-quantis-lambda-truthiness", SETUP, "    if quantis and lambda_minus_one is not False:", "    if quantis and lambda_minus_one:", "R-18.1", why="pre-fix F18.3"),
     B("c18-lambda-equal-accepted", SETUP, "    if lambda_minus_one is not False and lambda_minus_one >= intf[0]:", "    if lambda_minus_one is not False and lambda_minus_one > intf[0]:", "R-18.1"),
     B("c18-engine-undefined-accepted", SETUP, "        if key1 not in config.keys():\n            raise TOMLConfigError(f\"Engine '{key1}' not defined!\")", "        if key1 not in config.keys():\n            logger.info(f\"Engine '{key1}' not defined!\")", "R-18.1"),
     B("c18-error-swallowed", SETUP, "    if n_ens < 2:\n        raise TOMLConfigError(\"Define at least 2 interfaces!\")", "    try:\n        if n_ens < 2:\n            raise TOMLConfigError(\"Define at least 2 interfaces!\")\n    except TOMLConfigError:\n        pass", "R-18.1"),
